@@ -304,6 +304,19 @@ def run(ctx):
                 observed[tuple(sorted(b))] = res[:2]
                 slowest.append((res[2], len(res[0]), b))
             ctx.note("slowest_bases_seconds_questions", sorted(slowest, reverse=True)[:4])
+        # the same questions for a few bases in worker processes whose hashes collide (harness/weakhash.py, switched on
+        # through the environment before the workers import the library)
+        weak_bases = [a for a in args if max(map(len, a[1]), default=0) <= 4][:: max(1, len(args) // 4)][:4]
+        os.environ["VERIF_WEAK_HASH"] = "3"
+        try:
+            with concurrent.futures.ProcessPoolExecutor(max_workers=3, mp_context=multiprocessing.get_context("spawn")) as procs:
+                for a, res in zip(weak_bases, procs.map(ask_worker, weak_bases, chunksize=1)):
+                    key = tuple(sorted(a[1]))
+                    extra = [(name + " (interpreter with colliding hashes)", st, got, flags) for name, st, got, flags in res[0]]
+                    observed[key] = (observed[key][0] + extra, observed[key][1])
+        finally:
+            del os.environ["VERIF_WEAK_HASH"]
+        ctx.note("bases_asked_again_with_colliding_hashes", len(weak_bases))
         t_ask = time.time() - t0
         results = [f.result() for f in futs]
         pin_results = [f.result() for f in pin_futs]
